@@ -83,6 +83,16 @@ def make_operator(ctx, gm, model, charge=None):
     return None, None
 
 
+def rep_floor(mp):
+    """Rounding floor of the REPRESENTATION: products of site tensors are evaluated in floating point, so anything computed
+    from the object carries an error of order eps * prod ||T_i|| * |coeff| - far below 1e-10 of its norm for a well
+    conditioned representation, but not for a difference of nearly equal states (tensors O(1), represented norm 1e-13)."""
+    p = 1.0
+    for i in range(mp.site_num):
+        p *= max(float(np.linalg.norm(np.asarray(mp[i].array))), 1e-300)
+    return 1e4 * np.finfo(float).eps * p * abs(complex(getattr(mp, "coeff", 1.0)))
+
+
 def post_check(ctx, obj, what):
     """The result must stay correct when a copy of it is canonicalised / compressed without truncation."""
     rng = ctx.rng
@@ -92,7 +102,7 @@ def post_check(ctx, obj, what):
     ctx.lib(states.apply_gauge, rng, cp, op, what=f"{what}|post-{op}")
     ctx.cls("post:canonicalised")
     ctx.count("oracle")
-    scale = max(float(np.linalg.norm(obj.ref)), obj.scale or 0.0, 1e-300)
+    scale = max(float(np.linalg.norm(obj.ref)), obj.scale or 0.0, 1e-300, 1e10 * rep_floor(obj.mp))
     ctx.close(states.dense_of(cp), obj.ref, 1e-10, f"{what}|wrong-after-canonicalise", scale=scale, post=op,
               trace=obj.trace[-6:])
 
@@ -102,6 +112,7 @@ def compare(ctx, obj, what, scale=None):
     if scale is None:
         scale = max(float(np.linalg.norm(obj.ref)), obj.scale or 0.0, 1e-300)
     obj.scale = max(scale, obj.scale or 0.0)
+    scale = max(scale, 1e10 * rep_floor(obj.mp))
     return ctx.close(states.dense_of(obj.mp), obj.ref, 1e-10, f"{what}|dense-mismatch", scale=scale,
                      trace=obj.trace[-6:])
 
@@ -276,13 +287,23 @@ def run_case(ctx):
             b = same[int(rng.integers(0, len(same)))]
             ta = np.asarray(a.mp.todense())
             tb = np.asarray(b.mp.todense())
-            sc = max(float(np.linalg.norm(ta) * np.linalg.norm(tb)), 1e-300)
+            kappa = max(rep_floor(x.mp) / (1e4 * np.finfo(float).eps) / max(float(np.linalg.norm(x.ref)), 1e-300) for x in (a, b))
+            if kappa > 1e6:
+                # a difference of nearly equal states: tensors of order one represent a vector that is smaller by > 1e6; every
+                # contraction of such an object loses that many digits - an input the harness made, not a library matter
+                ctx.cls("ill-conditioned-representation:scalars-skipped")
+                continue
+            fa = 1e10 * rep_floor(a.mp) / max(abs(complex(a.mp.coeff)), 1e-300)      # tensor-level rounding floors
+            fb = 1e10 * rep_floor(b.mp) / max(abs(complex(b.mp.coeff)), 1e-300)
+            na, nb = max(float(np.linalg.norm(ta)), fa), max(float(np.linalg.norm(tb)), fb)
+            sc = max(na * nb, 1e-300)
             ctx.count("oracle", 4)
             ctx.close(ctx.lib(a.mp.dot, b.mp, what="dot"), np.sum(ta * tb), 1e-10, "dot|mismatch", scale=sc)
             ctx.close(ctx.lib(a.mp.angle, b.mp, what="angle"), abs(np.vdot(ta, tb)), 1e-10, "angle|mismatch", scale=sc)
-            ctx.close(a.mp.mp_norm, np.linalg.norm(ta), 1e-10, "mp_norm|mismatch", scale=max(np.linalg.norm(ta), 1e-300))
+            # (the norm is the square root of a contraction: its floor is the geometric mean of the floor and the value)
+            ctx.close(a.mp.mp_norm, np.linalg.norm(ta), 1e-10, "mp_norm|mismatch", scale=max(na, 1e-300))
             ctx.close(a.mp.norm, abs(a.mp.coeff) * np.linalg.norm(ta), 1e-10, "norm|mismatch",
-                      scale=max(abs(a.mp.coeff) * np.linalg.norm(ta), 1e-300))
+                      scale=max(abs(a.mp.coeff) * na, 1e-300))
             if b is not a:
                 differ = not np.allclose(a.mp.coeff, b.mp.coeff)
                 if differ:
